@@ -318,6 +318,18 @@ func (w *sshWorld) MDial(c int, t string) string {
 }
 
 func (w *sshWorld) MPresent(c int, k, proof string) string { return "not an atomic world" }
+func (w *sshWorld) MHello(c int, k, proof string) string   { return "not a P2PKE world" }
+func (w *sshWorld) MFinish(c int) string                   { return "not a P2PKE world" }
+
+func (w *sshWorld) Lookup(n, x, t string, timeout time.Duration) string {
+	ctx, cf := context.WithTimeout(w.ctx, timeout)
+	defer cf()
+	k, err := w.wrap[n].LookupPublicKey(ctx, w.full(x, t))
+	if err != nil {
+		return "err"
+	}
+	return sshKeyName(k)
+}
 
 // MAuth runs the SSH client over the TCP connection of c with signers that put exactly the scripted
 // user-auth requests on the wire. A Signed(k) that does not directly follow a Query is sent as
